@@ -754,6 +754,21 @@ def glob_case(impl, p, h):
     return c, ['glob\t%s\t%s' % (wire.enc(p), wire.enc(h)), 'isUserHostmask\t' + wire.enc(h),
                'intersect\t%s\t%s' % (wire.enc(p), wire.enc(q))]
 
+SUSPECTS = [0x130, 0x131, 0x17f, 0x212a, 0x212b, 0xdf, 0x1e9e, 0x3a3, 0x3c2, 0x3c3, 0xb5, 0x3bc, 0x1c5, 0xfb01, 0x49, 0x69, 0x4b, 0x6b, 0x53, 0x73]
+def unicode_pairs(r, n, whole_bmp=False):
+    """(pattern, hostmask) pairs of single characters around the non-ASCII boundary: every code point against
+    itself, its str.lower()/str.upper() images and the ASCII letters that Unicode case folding would identify with it.
+    IRC case rules (rfc1459) fold ASCII letters and []\\~ only."""
+    cps = list(range(0x20, 0x10000)) if whole_bmp else SUSPECTS + [r.randrange(0x80, 0x10000) for _ in range(n)] + list(range(0x20, 0x180))
+    for cp in cps:
+        if 0xD800 <= cp < 0xE000: continue
+        c = chr(cp)
+        others = {c, c.lower()[:1], c.upper()[:1], c.casefold()[:1], 'k', 's', 'i', 'K'}
+        for d in others:
+            if d and d not in '*?':
+                if c not in '*?': yield c, d
+                yield d, c
+
 def valid_unicode(s):
     try:
         s.encode('utf-8'); return True
@@ -781,6 +796,9 @@ def explore(ctx, n_hist, n_hostile, n_over, n_glob, corpus=(), stream='c04', n_p
         add(*run_phistory(impl, r, 0, 'plugin-corpus', fixed=fixed))
     for _ in range(n_plug):
         add(*run_phistory(impl, r, r.randint(8, 45), 'plugin'))
+    for (p_, h_) in unicode_pairs(r, 300 if n_glob < 100000 else 0, whole_bmp=(n_glob >= 100000)):
+        if valid_unicode(p_) and valid_unicode(h_):
+            c_, l_ = glob_case(impl, p_ + '!u@h', h_ + '!u@h'); c_.kind = 'unicode'; add(c_, l_)
     for _ in range(n_glob):
         p, h = gen_glob_pair(r)
         if valid_unicode(p) and valid_unicode(h):
